@@ -90,6 +90,9 @@ func runCheck(args []string) {
 	}
 	t0 := time.Now()
 	evPath := filepath.Join(*verif, "evidence", *prop+".json")
+	if d := os.Getenv("GOCV_EVIDENCE_DIR"); d != "" {
+		evPath = filepath.Join(d, *prop+".json") // runs on scratch copies (seeded changes) must not touch the evidence of the real tree
+	}
 	os.MkdirAll(filepath.Dir(evPath), 0755)
 	os.Remove(evPath)
 
@@ -105,6 +108,13 @@ func runCheck(args []string) {
 		os.Exit(1)
 	}
 	e.tier = *tier
+	e.curProp = *prop
+	e.knownNames = map[string]bool{}
+	for _, k := range loadKnownFindings(filepath.Join(*verif, "known_findings.json")).Findings {
+		if k.Status == "known" && k.Property == *prop {
+			e.knownNames[k.Obligation] = true
+		}
+	}
 	cr := &checkRun{e: e, prop: *prop, tier: *tier, assumed: map[string]bool{}, notes: map[string]bool{}, extraCov: map[string]interface{}{}}
 	for _, er := range e.contracts.Errors {
 		cr.undecided = append(cr.undecided, "contract syntax: "+er)
@@ -351,6 +361,11 @@ func (cr *checkRun) report(verif, evPath string, seed int, t0 time.Time, writeBa
 		case inBase || !haveBase:
 			viols = append(viols, violation{name: o.Name, reason: fmt.Sprintf("not discharged (%s); it was discharged on the unchanged tree", o.Status), detail: o.Detail + "\n" + o.Model})
 		default:
+			if known.match(cr.prop, o.Name) != nil {
+				// a recorded finding stays a finding whether the solver refutes the obligation or merely fails to prove it
+				viols = append(viols, violation{name: o.Name, reason: "recorded finding: " + o.Status, detail: o.Detail + "\n" + o.Model})
+				break
+			}
 			cr.undecided = append(cr.undecided, fmt.Sprintf("UNDECIDED %s: %s (new obligation, no counterexample)", o.Name, o.Status))
 		}
 	}
